@@ -647,10 +647,13 @@ impl Interpreter {
             });
         };
 
+        // indexes start at 1: anything below that (or NaN) is out of range, it must not wrap to element 1
+        let position = if idx >= 1.0 { (idx - 1.0) as usize } else { usize::MAX };
+
         let target = match &list {
             Value::String(string) => string
                 .chars()
-                .nth((idx - 1.0) as usize)
+                .nth(position)
                 .map(|ch| Value::String(ch.to_string()))
                 .ok_or_else(|| RuntimeError {
                     named_source: NamedSource::new(
@@ -666,7 +669,7 @@ impl Interpreter {
                 }),
             Value::List(list) => {
                 list.borrow()
-                    .get((idx - 1.0) as usize)
+                    .get(position)
                     .cloned()
                     .ok_or_else(|| RuntimeError {
                         named_source: NamedSource::new(
@@ -726,8 +729,11 @@ impl Interpreter {
             });
         };
 
+        // indexes start at 1: anything below that (or NaN) is out of range, it must not wrap to element 1
+        let position = if idx >= 1.0 { (idx - 1.0) as usize } else { usize::MAX };
+
         let mut list_borrowed = list.borrow_mut();
-        if let Some(target) = list_borrowed.get_mut((idx - 1.0) as usize) {
+        if let Some(target) = list_borrowed.get_mut(position) {
             *target = value.clone();
         } else {
             return Err(RuntimeError {
